@@ -294,7 +294,11 @@ def check_snapshot_fresh(mod, rep, rid):
                         continue
                     if paths_avoiding(g, T, lambda i: i is E, lambda i: False) is None:
                         continue    # the thread never enqueues again after this sleep
+                    # the snapshot may also be taken just after the enqueue (still inside the spinlock: nobody can have dequeued the record
+                    # yet) - what matters is that every trip sleep -> enqueue -> sleep takes one
                     stale = paths_avoiding(g, T, lambda i: i is E, lambda i: id(i) in sn)
+                    if stale is not None and paths_avoiding(g, E, lambda i: i is T, lambda i: id(i) in sn or id(i) in others) is None:
+                        stale = None
                     n += 1
                     rep.instance(rid, '%s: enqueue at %s leads to the timed sleep at %s again; snapshot of remove_count re-taken in between (%d snapshot load(s)): %s'
                                  % (gname, E.where(), T.where(), len(snaps), stale is None)); rep.oblig(rid, stale is None)
